@@ -88,6 +88,7 @@ theorem C02_ladder_tail {σ R : Type} {X : Ext} {ops : Ops σ R} {P : Pres σ R}
   have hmsg3 := hX.hmsg3
   have hmsg2 := hX.hmsg2
   have hcb := hX.hcb
+  have hcbs := hX.hcbs
   have hglob := hX.hglob
   clear hX
   obtain ⟨nr, no, nd⟩ := fl
@@ -141,25 +142,25 @@ theorem C02_source_ladder {σ R : Type} {X : Ext} {ops : Ops σ R} {P : Pres σ 
   simp only [selfV, sideV, domV, suiteV] at hrun hext
   simp only [Gen.c02oLadderCallSrc, List.take]
   cases h0 : ops.ok (ops.run s r)
-  · head_eval
-    by_cases hd : ops.dim s = ops.dim r
-    · head_eval
-      refine T s r 0 _ [] _ ?_ ?_ ?_ ?_ ?_ ?_ <;> simp [List.lookup, selfV, sideV, domV, suiteV, hd, h0]
-    · cases hnd : fl.noDimMatch
-      · simp only [hnd] at hrun
-        cases he1 : ops.extend (max (ops.dim s) (ops.dim r)) s with
+  · cases hnd : fl.noDimMatch <;> simp only [hnd] at hrun <;> (try head_eval) <;>
+      by_cases hd : ops.dim s = ops.dim r
+    · (try head_eval)
+      refine T s r 0 _ [] _ ?_ ?_ ?_ ?_ ?_ ?_ <;> simp [List.lookup, selfV, sideV, domV, suiteV, hd, h0, hnd]
+    · cases he1 : ops.extend (max (ops.dim s) (ops.dim r)) s with
+      | error e => lad_eval
+      | ok s1 =>
+        cases he2 : ops.extend (max (ops.dim s) (ops.dim r)) r with
         | error e => lad_eval
-        | ok s1 =>
-          cases he2 : ops.extend (max (ops.dim s) (ops.dim r)) r with
-          | error e => lad_eval
-          | ok r1 =>
-            cases h1 : ops.ok (ops.run s1 r1)
-            · head_eval
-              refine T s1 r1 1 _ [.retry (ops.run s r) "extended points"] _ ?_ ?_ ?_ ?_ ?_ ?_ <;>
-                simp [List.lookup, selfV, sideV, domV, suiteV, h1, msgV, hnd]
-            · lad_eval
-      · head_eval
-        refine T s r 0 _ [] _ ?_ ?_ ?_ ?_ ?_ ?_ <;> simp [List.lookup, selfV, sideV, domV, suiteV, hd, h0, hnd]
+        | ok r1 =>
+          cases h1 : ops.ok (ops.run s1 r1)
+          · head_eval
+            refine T s1 r1 1 _ [.retry (ops.run s r) "extended points"] _ ?_ ?_ ?_ ?_ ?_ ?_ <;>
+              simp [List.lookup, selfV, sideV, domV, suiteV, h1, msgV, hnd]
+          · lad_eval
+    · (try head_eval)
+      refine T s r 0 _ [] _ ?_ ?_ ?_ ?_ ?_ ?_ <;> simp [List.lookup, selfV, sideV, domV, suiteV, hd, h0, hnd]
+    · (try head_eval)
+      refine T s r 0 _ [] _ ?_ ?_ ?_ ?_ ?_ ?_ <;> simp [List.lookup, selfV, sideV, domV, suiteV, hd, h0, hnd]
   · lad_eval
 
 /-- rungs 2 and 3 of the concrete model are the abstract `reorder` on the model's operations -/
